@@ -90,6 +90,7 @@ type Script struct {
 	UErr     ErrSpec
 	UPanic   PanicSpec
 	USleepMs int
+	UZero    bool // value outcome: return the Go ZERO value of the result type (nil slice, nil pointer, "", 0)
 
 	// Stream init.
 	InitLogs  []Log
